@@ -360,10 +360,10 @@ def run_amb(prop, tier, seed, rep, t0):
     binary = driver_binary()
     models, cover = [], {}
     states = transitions = 0
-    check_cfgs = ["DidStore.amb.%s.cfg" % tier, "DidStore.chain.cfg"] + ([] if quick else ["DidStore.amb.quick.cfg"])
+    check_cfgs = ["DidStore.amb.%s.cfg" % tier, "DidStore.chain.cfg"]
     for cfg in check_cfgs:
-        # -coverage slows TLC down by an order of magnitude: the vacuity guard of the thorough tier uses the small configurations
-        m = tlc_ok(cfg, (not quick) and cfg == "DidStore.amb.quick.cfg", "prescriptive receive pipeline")
+        # -coverage slows TLC down by an order of magnitude: the vacuity guard of the thorough tier uses the small chain configuration
+        m = tlc_ok(cfg, (not quick) and cfg == "DidStore.chain.cfg", "prescriptive receive pipeline")
         models.append(model_entry(cfg, m, properties="KeysChangeOnlyByAuthorized RejectedChangesNothing NoPanic StoredWereAccepted DeactivatedForever OrderIndependent CountersExact"))
         cover.update(m.coverage)
         states += m.distinct
